@@ -182,6 +182,11 @@ def correspondence(mod, cases, results, workdir, name="cases"):
     for i, (c, (obs, fails)) in enumerate(zip(cases, results)):
         try:
             ts = mod.coq_terms(c, obs)
+        except AssertionError as e:
+            if "nat literal too large" in str(e):
+                ts = []       # the run produced counts beyond what a unary Gallina literal can carry: this case is judged by the oracle only
+            else:
+                return 0, [], [("coq_terms", "case %d: %s" % (i, traceback.format_exc()[-1500:]))]
         except Exception as e:
             return 0, [], [("coq_terms", "case %d: %s" % (i, traceback.format_exc()[-1500:]))]
         for k, t in enumerate(ts or []):
